@@ -12,7 +12,7 @@ META = {
                    "cell's lengths and angles in the standard orientation, and that numbered restart files get frame k's coordinates, time and cell. Load side: the "
                    "real read_as_traj of each pure-Python format class runs on symbolic arrays delivered by a stub read(); the values reaching the Trajectory "
                    "constructor / setters must be the file's numbers converted to nm with times / angles unchanged. Text layer (harness/c01_text.py): the real write() "
-                   "of gro, mdcrd, xyz, lammpstrj and rst7 runs on symbolic numbers; formatting a symbolic value yields a TOKEN standing for its z3 term, so all arithmetic before "
+                   "of gro, mdcrd, xyz, lammpstrj, rst7 and pdb runs on symbolic numbers; formatting a symbolic value yields a TOKEN standing for its z3 term, so all arithmetic before "
                    "formatting (LAMMPS box bounds and tilt factors, minima) stays symbolic and the text records which term landed in which field; an independent reader written "
                    "from each format's specification parses the text and z3 decides that it extracts the trajectory's numbers, on every path through the writer (branches on "
                    "symbolic values are explored); mdtraj's own reader must extract the same tokens. Counterexamples are replayed through real files "
@@ -21,7 +21,7 @@ META = {
     "assumptions": ["2 frames x 2 atoms (restart: 1, 3 and 11 frames); coordinates/times in [-1000,1000], cell lengths in [0.5,100] nm; cell angles concrete (90/90/90 and 80/100/70)",
                     "real arithmetic: float32 storage precision of the formats is not modelled"],
     "out": ["binary codecs (XTC compression, TRR, DCD, DTR: Cython + C behind FFI) and HDF5/NetCDF storage layers: bytes on disk are not modelled",
-            "number formatting itself (rounding to the printed precision, field overflow at the format's limit): tokens are exact in every field", "PDB text layer (ATOM/CRYST1 records), .gz variants",
+            "number formatting itself (rounding to the printed precision, field overflow at the format's limit): tokens are exact in every field", ".gz variants", "PDB: bfactors / ter / header options, CONECT records, more than one chain",
             "read_as_traj of the compiled classes (xtc, trr, dcd, dtr)", "PDB keeps a single CRYST1 record: per-frame varying cells are a format limitation",
             "save options (gro precision, pdb bfactors/ter/header)"],
 }
@@ -54,8 +54,8 @@ def obligations():
     T = "harness.c01_text"
     enc = {"gro": ["mdtraj.formats.gro.GroTrajectoryFile.write", "_write_frame", "read", "_read_frame"], "mdcrd": ["mdtraj.formats.mdcrd.MDCRDTrajectoryFile.write", "read", "_read"],
            "xyz": ["mdtraj.formats.xyzfile.XYZTrajectoryFile.write", "read"], "lammpstrj": ["mdtraj.formats.lammpstrj.LAMMPSTrajectoryFile.write", "write_box", "read", "parse_box"],
-           "rst7": ["mdtraj.formats.amberrst.AmberRestartFile.write", "read"]}
-    for f in ("gro", "mdcrd", "xyz", "lammpstrj", "rst7"):
+           "rst7": ["mdtraj.formats.amberrst.AmberRestartFile.write", "read"], "pdb": ["mdtraj.formats.pdb.pdbfile.PDBTrajectoryFile.write", "_write_header", "_format_83", "_read_models"]}
+    for f in ("gro", "mdcrd", "xyz", "lammpstrj", "rst7", "pdb"):
         for cell in ("none", "ortho", "tri"):
             if (f, cell) in (("mdcrd", "tri"), ("lammpstrj", "none"), ("xyz", "ortho"), ("xyz", "tri")):
                 continue
@@ -72,6 +72,6 @@ def obligations():
 MANIFEST_INFO = {
     "engine": "symnum",
     "technique": "real save_<fmt> / read_as_traj Python code executed on z3 reals (symbolic coordinates, times, cell lengths) with the file class replaced by a recorder; z3 decides equality with an independent native-unit table; counterexamples replayed through real files",
-    "text": "Units and field plumbing between Trajectory and every writable format's writer (13 formats) and every pure-Python reader (8): native-unit factor, time/angle pass-through, box-vector geometry, per-file frame indexing of the multi-file restart writers, cell-less trajectories. Text formats (gro, mdcrd, xyz, lammpstrj, rst7): the written text, read by an independent specification-based reader and by mdtraj's reader, yields exactly the symbolic numbers (layout, field order, record wrapping, LAMMPS triclinic box bounds).",
-    "note": "PARTIAL: binary codecs (XTC/TRR/DCD/DTR, HDF5/NetCDF storage) and the PDB text layer are not modelled; printed precision / field overflow are not decided. Real arithmetic.",
+    "text": "Units and field plumbing between Trajectory and every writable format's writer (13 formats) and every pure-Python reader (8): native-unit factor, time/angle pass-through, box-vector geometry, per-file frame indexing of the multi-file restart writers, cell-less trajectories. Text formats (gro, mdcrd, xyz, lammpstrj, rst7, pdb): the written text, read by an independent specification-based reader and by mdtraj's reader, yields exactly the symbolic numbers (layout, field order, record wrapping, LAMMPS triclinic box bounds).",
+    "note": "PARTIAL: binary codecs (XTC/TRR/DCD/DTR, HDF5/NetCDF storage) are not modelled; printed precision / field overflow are not decided. Real arithmetic.",
 }
